@@ -97,7 +97,13 @@ func (chain *BlockChain) ProcessBlock(broadcast bool, block *types.BlockDetail, 
 		chainlog.Debug("ProcessBlock:AddOrphanBlock", "height", block.Block.GetHeight(), "blockHash", common.ToHex(blockHash), "prevHash", common.ToHex(prevHash))
 		verifDelay("orphan-before-add", block.Block.Height)
 		chain.orphanPool.AddOrphanBlock(broadcast, block.Block, pid, sequence)
-		return nil, false, true, nil
+		// 父区块可能在本区块进入孤儿池的过程中已经被连接并且处理完了它的孤儿子节点,
+		// 此时本区块不会再被触发处理, 需要从孤儿池中取出继续尝试添加
+		if !chain.blockExists(prevHash) {
+			return nil, false, true, nil
+		}
+		chain.orphanPool.RemoveOrphanBlockByHash(blockHash)
+		chainlog.Debug("ProcessBlock:parent connected while orphaning", "height", block.Block.Height, "hash", common.ToHex(blockHash))
 	}
 
 	// 基本检测通过之后尝试添加block到主链上
